@@ -48,20 +48,73 @@ Theorem C01_undo_restores_encoded_values_partial : forall tt, tt_ok tt = true ->
   C01_statement (EOps tt) (docs_then_calcs (EOps tt)).
 Proof. intros tt H. apply C01_undo_restores_docs_calcs_partial. apply EOps_laws. exact H. Qed.
 
-(* Stage 3, first increment: after the leading doc actions (any, lossless) the calc deltas may be interleaved with
-   RenameColumn and RenameTable (to names without the reserved prefix) in any order and number.  `bundle_ok3` is the
-   computable check (it accepts every bundle `bundle_ok2` accepts).  The proof carries a ghost document that follows
-   only the doc actions: the pending deltas relate the real document to the ghost one (calc_rel), they travel with the
-   renames exactly as LabelRenames moves the delta keys (dget_rencol, dget_rentab), and at the flush the restores bring
-   the real document to the ghost one, from which the undo actions of the doc actions lead back to the start. *)
-Definition docs_calcs_renames (O : ValOps) (s : state O) (es : list (event O)) : Prop := bundle_ok3 O s es = true.
+(* Stage 3.  The whole bundle is one "mixed phase" in which the following steps may occur in any order and number
+   (`bundle_ok3`, a computable check that the harness evaluates on every recorded trace; it accepts every bundle that
+   `bundle_ok2` accepts):
+     - a calc delta whose rows exist and whose first `before` per row equals the current cell up to encoding (SC2);
+     - RenameColumn / RenameTable to a name without the reserved prefix, WHATEVER is pending (increment 1);
+     - any lossless doc action (as in stage 1) while no calc delta is pending (increment 2: "nothing pending");
+     - the per-column flush of doModifyColumn for a column that has no pending delta (a no-op on the lists);
+     - the triple of doModifyColumn: ModifyColumn t c (any change of the column info, INCLUDING a change of type), the
+       conversion delta Calc t c (optional), FlushCol t c -- one step of the invariant (increment 3).  Side conditions:
+       the column had no pending delta; every row of the conversion delta exists and its `before` equals the cell before
+       the ModifyColumn up to encoding; every row that the delta does not change (in encoding) survives the type round
+       trip: Column.set under the new type gives a value of the same encoding.
+   The proof (Proofs/ActionLog_stage3.v) carries a ghost document g that follows only the doc actions, related to the
+   real document through the pending deltas (calc_rel), with: the undo list so far restores the start document from any
+   document that agrees with g outside the cells created in the bundle (tr_ok); the stored list so far, replayed on the
+   start document, reaches g (redo_ok).  Deltas travel with the renames exactly as LabelRenames moves the keys
+   (dget_rencol, dget_rentab); with nothing pending the ghost is re-based on the real document (gi_rebase); for the
+   doModifyColumn triple the ghost takes the ModifyColumn and the stored update of the flush, and the restore block,
+   which the flush places BEFORE the ModifyColumn undo, is shown to put back exactly the cells the type round trip
+   does not (block_one, a restore block with a tight exception set; Proofs/ActionLog_cells.v). *)
+Definition stage3_events (O : ValOps) (s : state O) (es : list (event O)) : Prop := bundle_ok3 O s es = true.
+Definition docs_calcs_renames := stage3_events.
 
-Theorem C01_undo_restores_calc_then_rename_partial : forall O, ValLaws O -> C01_statement O (docs_calcs_renames O).
+Theorem C01_undo_restores_stage3_partial : forall O, ValLaws O -> C01_statement O (stage3_events O).
 Proof. intros O L s es s' out _ Hok H. exact (bundle_ok3_undo O L s es s' out Hok H). Qed.
 
+(* the increments, by name (the same class, which grew with each of them) *)
+Theorem C01_undo_restores_calc_then_rename_partial : forall O, ValLaws O -> C01_statement O (docs_calcs_renames O).
+Proof. exact C01_undo_restores_stage3_partial. Qed.
+
+Theorem C01_undo_restores_modify_flush_partial : forall O, ValLaws O -> C01_statement O (stage3_events O).
+Proof. exact C01_undo_restores_stage3_partial. Qed.
+
 Theorem C01_undo_restores_calc_then_rename_encoded_partial : forall tt, tt_ok tt = true ->
-  C01_statement (EOps tt) (docs_calcs_renames (EOps tt)).
-Proof. intros tt H. apply C01_undo_restores_calc_then_rename_partial. apply EOps_laws. exact H. Qed.
+  C01_statement (EOps tt) (stage3_events (EOps tt)).
+Proof. intros tt H. apply C01_undo_restores_stage3_partial. apply EOps_laws. exact H. Qed.
+
+(* the steps of the invariant, one statement per kind of event (gi s0 g m: see above) *)
+Theorem C01_stage3_steps : forall O (L : ValLaws O) s0 g m m',
+  gi O s0 g m ->
+  (forall t c chs, calc_event_ok O m t c chs -> step O m (Calc O t c chs) = Ok m' -> gi O s0 g m') /\
+  (forall t old new, is_defunct new = false -> step O m (Doc O (RenameColumn O t old new)) = Ok m' -> exists g', gi O s0 g' m') /\
+  (forall old new, is_defunct new = false -> step O m (Doc O (RenameTable O old new)) = Ok m' -> exists g', gi O s0 g' m') /\
+  (forall a, quiet O (m_sum O m) -> (forall t c r, ~ lossy O a (m_doc O m) t c r) -> act_names_ok O a ->
+             step O m (Doc O a) = Ok m' -> gi O s0 (m_doc O m') m' /\ quiet O (m_sum O m')) /\
+  (forall t c, no_delta_entry O (m_sum O m) t c = true -> step O m (FlushCol O t c) = Ok m' -> gi O s0 g m') /\
+  (forall t c mi ochs, modflush_okb O m t c mi ochs = true -> steps O m (modflush_events O t c mi ochs) = Ok m' ->
+                       exists g', gi O s0 g' m').
+Proof.
+  intros O L s0 g m m' Hgi. split; [|split; [|split; [|split; [|split]]]].
+  - intros t c chs H1 H2. exact (gi_calc O L _ _ _ _ _ _ _ Hgi H1 H2).
+  - intros t old new H1 H2. exact (gi_rename_col O L _ _ _ _ _ _ _ Hgi H1 H2).
+  - intros old new H1 H2. exact (gi_rename_table O L _ _ _ _ _ _ Hgi H1 H2).
+  - intros a H1 H2 H3 H4. exact (gi_doc_quiet O L _ _ _ _ _ Hgi H1 H2 H3 H4).
+  - intros t c H1 H2. exact (gi_flushcol_nil O _ _ _ _ _ _ Hgi H1 H2).
+  - intros t c mi ochs H1 H2. exact (gi_modflush O L _ _ _ _ _ _ _ _ Hgi H1 H2).
+Qed.
+
+(* ... and what the invariant gives at the flush that ends the bundle *)
+Theorem C01_stage3_flush : forall O (L : ValLaws O) s0 g m,
+  gi O s0 g m ->
+  flush_all O (m_sum O m) (m_stored O m, m_undo O m) =
+    Ok (m_stored O m ++ all_sblocks O (m_sum O m), m_undo O m ++ all_blocks O (m_sum O m)) /\
+  (exists s'', replay_doc O (rev (m_undo O m ++ all_blocks O (m_sum O m))) (m_doc O m) = Ok s'' /\ seq O s'' s0) /\
+  (forall s1, seq O s1 s0 ->
+     exists s2, replay_doc O (m_stored O m ++ all_sblocks O (m_sum O m)) s1 = Ok s2 /\ seq O s2 (m_doc O m)).
+Proof. intros O L s0 g m H. exact (gi_flush O L s0 g m H). Qed.
 
 (* Each doc action is undone by the undo actions it appended, except for the cells in `lossy` (restored by
    the engine through the calc summary, by recalculation, or by the conversion delta of doModifyColumn). *)
@@ -180,7 +233,7 @@ Example C01_docs_calcs_restore :
                  o_stored ZOps out = [BulkUpdateRecord ZOps nT [1] [(nA, [11])]; BulkUpdateRecord ZOps nT [1] [(nF, [11])]].
 Proof. split; [vm_compute; reflexivity|]. eexists. eexists. split; [vm_compute; reflexivity|]. split; reflexivity. Qed.
 
-(* Stage 3 shape (renames and removals between a calc delta and the flush) is NOT covered by a theorem; this
+(* Removals between a calc delta and the flush are NOT yet covered by a theorem (stage 3 covers renames, see above); this
    concrete bundle -- AddColumn, Calc, RenameColumn, RemoveColumn, RemoveTable -- shows what the model does with
    it: the delta follows the column through the rename, becomes defunct with the removals, is dropped because the
    column was created in the bundle, and the undo list restores the start document. *)
@@ -219,6 +272,32 @@ Example C01_calc_then_rename_nonvacuous :
                  o_undo ZOps out = [BulkUpdateRecord ZOps nT [1] [(nA, [10])]; RenameColumn ZOps nT [71] nF;
                                     RenameTable ZOps [85] nT; BulkUpdateRecord ZOps [85] [1; 2] [([71], [10; 20])]] /\
                  replay_doc ZOps (rev (o_undo ZOps out)) s' = Ok s'' /\ view ZOps s'' = view ZOps ex3_state.
+Proof.
+  split; [vm_compute; reflexivity|]. split; [vm_compute; reflexivity|]. eexists. eexists. eexists.
+  split; [vm_compute; reflexivity|]. split; [reflexivity|]. split; vm_compute; reflexivity.
+Qed.
+
+(* The triple of doModifyColumn on a concrete bundle: the type of the data column A changes (with the values of this
+   toy instance every conversion is the identity), row 1 gets a conversion delta, the column is flushed, and doc
+   actions follow.  The restore of the flush sits BEFORE the ModifyColumn undo in the undo list. *)
+Definition nText : name := [84; 101; 120; 116].
+Definition ex6_events : list (event ZOps) :=
+  [ Doc ZOps (BulkUpdateRecord ZOps nT [2] [(nA, [21])]);
+    Calc ZOps nT nF [(2, (20, 21))];
+    Doc ZOps (ModifyColumn ZOps nT nA (mkMI (Some nText) None None None));
+    Calc ZOps nT nA [(1, (10, 11))];
+    FlushCol ZOps nT nA;
+    Doc ZOps (RenameTable ZOps nT [85]) ].
+
+Example C01_modify_flush_nonvacuous :
+  bundle_ok3 ZOps ex3_state ex6_events = true /\ bundle_ok2 ZOps ex3_state ex6_events = false /\
+  exists s' out s'', run ZOps ex3_state ex6_events = Ok (s', out) /\
+                 o_undo ZOps out = [BulkUpdateRecord ZOps nT [2] [(nA, [20])]; BulkUpdateRecord ZOps nT [1] [(nA, [10])];
+                                    ModifyColumn ZOps nT nA (mkMI (Some nInt) None None None);
+                                    RenameTable ZOps [85] nT; BulkUpdateRecord ZOps [85] [2] [(nF, [20])]] /\
+                 replay_doc ZOps (rev (o_undo ZOps out)) s' = Ok s'' /\
+                 (* the start document; ModifyColumn re-creates the column, which moves it to the end of the schema *)
+                 view ZOps s'' = [(nT, [1; 2], [(nF, ciFormula, [10; 20]); (nA, ciData, [10; 20])])].
 Proof.
   split; [vm_compute; reflexivity|]. split; [vm_compute; reflexivity|]. eexists. eexists. eexists.
   split; [vm_compute; reflexivity|]. split; [reflexivity|]. split; vm_compute; reflexivity.
